@@ -1,0 +1,18 @@
+//go:build verif
+
+package ingest
+
+import "diagonal.works/b6"
+
+// VerifExportRank returns the key EachModifiedFeature sorts by when asked
+// to feed references first (see feedFeatures): the number of references to
+// id recorded for the features of this world, followed transitively.
+func VerifExportRank(m *MutableOverlayWorld, id b6.FeatureID) int {
+	return len(m.references.FindReferences(id))
+}
+
+// VerifHasModifiedFeature reports whether id is among the features this
+// world holds itself (as opposed to its base).
+func VerifHasModifiedFeature(m *MutableOverlayWorld, id b6.FeatureID) bool {
+	return m.features.HasFeatureWithID(id)
+}
